@@ -243,7 +243,11 @@ class ObjectTemplate(base.HyperValue, utils.Formattable):
         # primitives), we can cherry-pick only non-hyper parts. Unless we saw
         # performance issues it's not worthy to optimize this.
         value = symbolic.clone(self._value, deep=True)
-        value.rebind(rebind_dict)
+        # The copy belongs to the template until it is returned: a sealed
+        # (sub-)tree of the template does not stop the placeholders from being
+        # materialized.
+        with symbolic.as_sealed(False):
+          value.rebind(rebind_dict)
       copied = True
     else:
       assert self.is_constant
@@ -275,7 +279,8 @@ class ObjectTemplate(base.HyperValue, utils.Formattable):
         for path, derived_value in derived_values:
           rebind_dict[path.path] = derived_value()
         assert rebind_dict
-        value.rebind(rebind_dict)
+        with symbolic.as_sealed(False):
+          value.rebind(rebind_dict)
     return value
 
   def encode(self, value: Any) -> geno.DNA:
